@@ -30,6 +30,7 @@ type Entry struct {
 	Group    int    // hard-link group: 0 = none, else canonical label (1-based index of first member)
 	Ino      uint64 `json:"-"` // snapshot only
 	Nlink    uint64 `json:"-"` // snapshot only
+	Ctime    int64  `json:"-"` // snapshot only
 }
 
 type Tree []Entry
